@@ -422,11 +422,17 @@ func C11(r *core.Run) {
 	// several assembly files per rule id in one --all run: every operand gets the regex of its own file
 	multi, d4 := core.Parallel(r, "multi", spec, 1, func(in in, shard, n int, emit func(offRes)) {
 		sb := filepath.Join(in.Dir, "multi")
-		texts := []string{"zero", "one", "two", "other", "otherone"}
+		texts := []string{"zero", "##! generates nothing", "two", "", "otherone"}
 		for rot := 0; rot < len(texts); rot++ {
 			tx := append(append([]string{}, texts[rot:]...), texts[:rot]...)
 			old := []ruleSpec{{ID: "123456", Regex: "OLD", Chain: []string{"OLDC1", "OLDC2"}}, {ID: "123457", Regex: "OLDB", Chain: []string{"OLDB1"}}}
-			want := []ruleSpec{{ID: "123456", Regex: tx[0], Chain: []string{tx[1], tx[2]}}, {ID: "123457", Regex: tx[3], Chain: []string{tx[4]}}}
+			gen := func(t string) string {
+				if strings.HasPrefix(t, "##!") {
+					return ""
+				}
+				return t
+			}
+			want := []ruleSpec{{ID: "123456", Regex: gen(tx[0]), Chain: []string{gen(tx[1]), gen(tx[2])}}, {ID: "123457", Regex: gen(tx[3]), Chain: []string{gen(tx[4])}}}
 			t := core.Tree{"regex-assembly/123456.ra": tx[0] + "\n", "regex-assembly/123456-chain1.ra": tx[1] + "\n", "regex-assembly/123456-chain2.ra": tx[2] + "\n",
 				"regex-assembly/123457.ra": tx[3] + "\n", "regex-assembly/123457-chain1.ra": tx[4] + "\n", "rules/REQUEST-123-TEST.conf": rulesFile(old...)}
 			os.RemoveAll(sb)
@@ -436,6 +442,30 @@ func C11(r *core.Run) {
 			emit(offRes{fmt.Sprint("five files, texts ", tx), "--all", rc.Exit == 0 && string(b) == rulesFile(want...), fmt.Sprintf("exit %d; rules file is not the one in which every operand carries the regex of its own assembly file", rc.Exit)})
 		}
 	})
+	// a tree nested below another tree: -d <inner> updates the inner rules file from the inner assembly file
+	nested, d5 := core.Parallel(r, "nested", spec, 1, func(in in, shard, n int, emit func(offRes)) {
+		sb := filepath.Join(in.Dir, "nested")
+		for _, inner := range []string{"outer/vendor/crs", "outer/rules/inner", "outer/regex-assembly/sub"} {
+			for _, mode := range []string{"single", "--all"} {
+				rf := func(re string) string { return rulesFile(ruleSpec{ID: "123456", Regex: re}) }
+				t := core.Tree{"outer/regex-assembly/123456.ra": "fromouter\n", "outer/rules/REQUEST-123-TEST.conf": rf("OLDOUTER"),
+					inner + "/regex-assembly/123456.ra": "frominner\n", inner + "/rules/REQUEST-123-TEST.conf": rf("OLDINNER")}
+				os.RemoveAll(sb)
+				t.Materialise(sb)
+				args := []string{"-d", filepath.Join(sb, inner), "regex", "update", "123456"}
+				if mode == "--all" {
+					args[len(args)-1] = "--all"
+				}
+				rc := core.RunCLI(r.Crs, sb, "", nil, args...)
+				a, _ := os.ReadFile(filepath.Join(sb, inner, "rules/REQUEST-123-TEST.conf"))
+				b, _ := os.ReadFile(filepath.Join(sb, "outer/rules/REQUEST-123-TEST.conf"))
+				emit(offRes{"inner tree " + inner, mode, rc.Exit == 0 && string(a) == rf("frominner") && string(b) == rf("OLDOUTER"),
+					fmt.Sprintf("exit %d; inner rules file updated from the inner assembly file: %v; outer rules file untouched: %v", rc.Exit, string(a) == rf("frominner"), string(b) == rf("OLDOUTER"))})
+			}
+		}
+	})
+	deaths = append(deaths, d5...)
+	offs = append(offs, nested...)
 	deaths = append(deaths, d4...)
 	offs = append(offs, multi...)
 	deaths = append(deaths, d3...)
